@@ -982,7 +982,7 @@ func (app *BaseApp) runTx(mode runTxMode, txBytes []byte, tx sdk.Tx) (result sdk
 
 	// Create a new context based off of the existing context with a cache wrapped
 	// multi-store in case message processing fails.
-	runMsgCtx, newMS := app.txContext(ctx, txBytes) // todo edit here!!!
+	runMsgCtx, msCache := app.cacheTxContext(ctx, txBytes)
 	result = app.runMsg(runMsgCtx, msgs, mode)
 	result.GasWanted = gasWanted
 
@@ -993,7 +993,7 @@ func (app *BaseApp) runTx(mode runTxMode, txBytes []byte, tx sdk.Tx) (result sdk
 
 	// only update state if all messages pass
 	if result.IsOK() {
-		newMS.CacheMultiStore().Write() // todo edit here!!!
+		msCache.Write()
 	}
 
 	return result
